@@ -20,6 +20,8 @@ def run(ctx):
     ws = [2, 3, 4] if q else WS
     base = program_units(rng, 150 if q else 2000, ALL + ['tt', 'faults'], ws, cfgs_per=3, seed_base=ctx.seed + 1500)
     base += C02.history_units(rng, 60 if q else 800, ws, ctx.seed + 1501, per=3)
+    import genhist
+    base += genhist.directed_units(ws[:2])
     units = [(src, [c for cfg in cfgs for c in (cfg, cfg._replace(unchecked=True))]) for src, cfgs in base]
     results = diffrun.run_units(units, want_ref=False)
     pairs = faultfree = 0
